@@ -741,7 +741,11 @@ def d3c_foreign_files(chk, prog):
              ("tab", "a CNVkit table", ["chromosome\tstart\tend\tgene\tlog2\n", "chr1\t100\t200\tG\t0.5\n"]),
              ("bed", "a BED with track and browser lines", ["browser position chr1:1-1000\n", "track name=baits\n", "chr1\t100\t200\tG\n"]),
              ("bed", "a BED after comment and blank lines", ["# baits v2\n", "\n", "chr1\t100\t200\n"]),
-             ("bed", "a six-column BED", ["chr1\t100\t200\tG\t0\t-\n"])]
+             ("bed", "a six-column BED", ["chr1\t100\t200\tG\t0\t-\n"]),
+             ("bed", "a six-column BED whose first bin is unnamed ('.')", ["chr1\t100\t200\t.\t0\t+\n", "chr1\t300\t400\tG\t0\t-\n"]),
+             ("bed", "a six-column BED whose first name is '-'", ["chr1\t100\t200\t-\t0\t+\n"]),
+             ("bed", "a twelve-column BED with an unnamed first row", ["chr1\t100\t200\t.\t0\t+\t100\t200\t0\t1\t100,\t0,\n"]),
+             ("interval", "an interval list whose name has dots and dashes", ["chr1\t101\t200\t-\tNM_001.2-ex1\n"])]
     for want, label, lines in files:
         W.reset()
         model = Model()
